@@ -40,11 +40,15 @@ pub fn take_notes() -> Vec<String> {
 /// Every handle of a `reserve_entities` iterator, taken in one of several equivalent ways (plain iteration, `step_by(1)`,
 /// repeated `nth(0)`, `skip(0)`, `last` after a partial read): iterator adaptors go through overridable methods of
 /// the iterator. Capped: a method that does not consume what it returns would otherwise never end.
-pub fn drain_reserved<I: Iterator<Item = hecs::Entity> + ExactSizeIterator>(mut it: I, n: usize) -> Vec<hecs::Entity> {
+pub fn drain_reserved<I: Iterator<Item = hecs::Entity> + ExactSizeIterator>(it: I, n: usize) -> Vec<hecs::Entity> {
+    drain_handles(it, n, "reserve_entities")
+}
+/// the same for any iterator of new handles (batch spawns)
+pub fn drain_handles<I: Iterator<Item = hecs::Entity> + ExactSizeIterator>(mut it: I, n: usize, what: &str) -> Vec<hecs::Entity> {
     static MODE: std::sync::atomic::AtomicUsize = std::sync::atomic::AtomicUsize::new(0);
     let mode = MODE.fetch_add(1, std::sync::atomic::Ordering::Relaxed) % 5;
     if it.len() != n {
-        note(format!("C07: reserve_entities({n}) announces {} handles", it.len()));
+        note(format!("C07/C12: {what}({n}) announces {} handles", it.len()));
     }
     let v: Vec<hecs::Entity> = match mode {
         0 => it.collect(),
@@ -70,14 +74,14 @@ pub fn drain_reserved<I: Iterator<Item = hecs::Entity> + ExactSizeIterator>(mut 
                 }
             }
             if it.len() > 1 {
-                note(format!("C07: {} handles left where at most one should be", it.len()));
+                note(format!("C07/C12: {what}: {} handles left where at most one should be", it.len()));
             }
             v.extend(it.last());
             v
         }
     };
     if v.len() != n {
-        note(format!("C07: reserve_entities({n}) yielded {} handles (mode {mode})", v.len()));
+        note(format!("C07/C12: {what}({n}) yielded {} handles (mode {mode})", v.len()));
     }
     v
 }
